@@ -20,6 +20,8 @@ theorem genTables_ok : Gen.Message.tables.OK where
   endian := by decide
   version := by decide
   maxLen := by decide
+  maxLenOf := by intro cls; cases cls <;> decide
+  headerAlign := by decide
   serialInit := by decide
   align := gen_alignOK
   mtype := by intro cls; cases cls <;> decide
@@ -27,6 +29,8 @@ theorem genTables_ok : Gen.Message.tables.OK where
   nodup := by intro cls; cases cls <;> decide
   nodupCodes := by intro cls; cases cls <;> decide
   fdsEntry := ⟨by decide, by intro cls; cases cls <;> decide⟩
+  hcodeTypes := by decide
+  required := by intro cls; cases cls <;> decide
   hcodeRange := by decide
   covers := by intro cls; cases cls <;> decide
 
